@@ -623,19 +623,37 @@ fn ref_delta_safe(fa: &[i32], fb: &[i32]) -> bool {
     let bound: usize = 3 + la.len() + lb.iter().map(|x| 3 + x.2).sum::<usize>();
     bound <= 16384 && lb.iter().all(|(k, _, n)| la.iter().all(|(k2, p, _)| k2 != k || p + n <= fa.len()))
 }
+fn distinct_keys(items: &[ItemV]) -> bool {
+    let mut k: Vec<(u16, u16)> = items.iter().map(|x| (x.0, x.1)).collect();
+    k.sort();
+    k.windows(2).all(|w| w[0] != w[1])
+}
 fn case_refbuild(o: &mut Out, items: &[ItemV]) {
     if !ref_builder_safe(items) {
         return;
     }
     let mut s = ref_build_in_order(items);
-    let res = match ref_snap_ints(&mut s) {
-        Some(v) => format!("ok:{}", ints_txt(&v)),
+    let ints = ref_snap_ints(&mut s);
+    let res = match &ints {
+        Some(v) => format!("ok:{}", ints_txt(v)),
         None => "cap".to_string(),
     };
     let kept = res.split(',').nth(1).map(|x| x.to_string()).unwrap_or_default();
-    let sig = format!("refbuild n={} kept={} sorted={}", items.len().min(3), if kept == items.len().to_string() { "all" } else { "dropped" },
-        items.windows(2).all(|w| (key_of(w[0].0, w[0].1) as u32) < (key_of(w[1].0, w[1].1) as u32)));
-    o.case(&format!("refbuild {}", items_txt(items)), &format!("refbuild={}", res), &sig);
+    let sorted = items.windows(2).all(|w| (key_of(w[0].0, w[0].1) as u32) < (key_of(w[1].0, w[1].1) as u32));
+    let sig = format!("refbuild n={} kept={} sorted={}", items.len().min(3), if kept == items.len().to_string() { "all" } else { "dropped" }, sorted);
+    let id = o.case(&format!("refbuild {}", items_txt(items)), &format!("refbuild={}", res), &sig);
+    // C09_ref_builder_any_order / _items on the real code: what the reference wrote is read by libtw2 as the
+    // snapshot its own builder makes of the same items; in ascending key order the integers are the same
+    if let (Some(rb), Some(ints)) = (if distinct_keys(items) { build_raw(items) } else { None }, ints) {
+        let mut rs = RawSnap::empty();
+        let mut w = vec![];
+        let r = guard(|| rs.read_from_ints(&mut w, &ints));
+        let good = matches!(r, Ok(Ok(()))) && w.is_empty() && raw_items(&rs) == raw_items(&rb) && rs.crc() == rb.crc();
+        o.check(good, "-", &id, || format!("reference builder ints of {} read as {:?} warnings {} items {}", items_txt(items), r, warn_txt(&w), items_txt(&raw_items(&rs))));
+        if sorted {
+            o.check(raw_ints(&rb) == Some(ints.clone()), "-", &id, || format!("{} in key order: write_to_ints {:?}, reference builder {}", items_txt(items), raw_ints(&rb), ints_txt(&ints)));
+        }
+    }
 }
 fn case_refdelta(o: &mut Out, cx: &mut Ctx, a: &[ItemV], b: &[ItemV]) -> Option<Vec<i32>> {
     if !ref_builder_safe(a) || !ref_builder_safe(b) {
@@ -658,7 +676,31 @@ fn case_refdelta(o: &mut Out, cx: &mut Ctx, a: &[ItemV], b: &[ItemV]) -> Option<
         Ok(v) => format!("refdelta del={} upd={} of {}", v[0].min(3), v[1].min(3), b.len().min(4)),
         Err(_) => "refdelta cap".to_string(),
     };
-    o.case(&format!("refdelta {} {} {}", items_txt(a), items_txt(b), table_txt(&ref_table())), &format!("refdelta={}", res), &sig);
+    let id = o.case(&format!("refdelta {} {} {}", items_txt(a), items_txt(b), table_txt(&ref_table())), &format!("refdelta={}", res), &sig);
+    // C09_ref_delta_items on the real code: both builders got the same two item lists (any order); the
+    // reference's delta, read and applied here, gives B
+    if let (Ok(ints), true, true) = (&rd, distinct_keys(a) && distinct_keys(b), ref_ok(a) && ref_ok(b)) {
+        if let (Some(ra), Some(rb)) = (build_raw(a), build_raw(b)) {
+            if !is_k09(&ra, &rb) && sizes_respected(&ref_table(), &rb) {
+                if ints.is_empty() {
+                    o.check(raw_items(&ra) == raw_items(&rb), "-", &id, || format!("reference delta is empty but A={} B={}", items_txt(a), items_txt(b)));
+                } else {
+                    let mut d = Delta::new();
+                    let mut w = vec![];
+                    let r = guard(|| d.read_from_ints(&mut w, ref_obj_size, &mut IntUnpacker::new(ints)));
+                    let mut rc = RawSnap::empty();
+                    let mut w2 = vec![];
+                    let r2 = guard(|| rc.read_with_delta(&mut w2, &ra, &d));
+                    let good = matches!(r, Ok(Ok(()))) && w.is_empty() && matches!(r2, Ok(Ok(()))) && w2.is_empty()
+                        && raw_items(&rc) == raw_items(&rb) && rc.crc() == rb.crc();
+                    o.check(good, "-", &id, || {
+                        format!("reference delta {} of A={} B={} (items in this order): read {:?} {} apply {:?} {} items {}", ints_txt(ints), items_txt(a), items_txt(b), r, warn_txt(&w), r2, warn_txt(&w2), items_txt(&raw_items(&rc)))
+                    });
+                }
+                o.count("reference pairs in any item order (oracle)");
+            }
+        }
+    }
     rd.ok()
 }
 
@@ -1070,6 +1112,45 @@ fn gen_c09(o: &mut Out, cx: &mut Ctx, r: &mut Rng, th: bool) {
             do_pair(o, cx, &b, &a, &t, light, use_ref);
             do_pair(o, cx, &[], &b, &t, light, use_ref);
             do_pair(o, cx, &a, &[], &t, light, use_ref);
+        }
+    }
+    // ---- a refused add_item leaves no trace: the snapshot finished after refusals serializes to the same
+    //      integers as the snapshot built from the accepted items alone (item limit and byte limit)
+    for k in 0..(if th { 12 } else { 4 }) {
+        let mut items: Vec<ItemV> = vec![];
+        match k % 4 {
+            0 => { for i in 0..1030u16 { items.push((7, i, if i % 50 == 0 { vec![i as i32; 3] } else { vec![] })); } }
+            1 => { for i in 0..20u16 { let n = 1000 + r.below(200) as usize; items.push((9, i, gen_data(r, n))); } }
+            2 => { for i in 0..1000u16 { items.push((3, i, vec![1])); } items.push((4, 0, gen_data(r, 15000))); for i in 0..40u16 { items.push((5, i, gen_data(r, 10))); } }
+            _ => { for i in 0..16u16 { items.push((11, i, gen_data(r, 1020))); } for i in 0..30u16 { items.push((12, i, vec![i as i32; (i % 4) as usize])); } }
+        }
+        let mut b = RawBuilder::new();
+        let mut accepted: Vec<ItemV> = vec![];
+        let mut refused = 0;
+        for (t, i, d) in &items {
+            match guard(|| b.add_item(*t, *i, d)) {
+                Ok(Ok(())) => accepted.push((*t, *i, d.clone())),
+                Ok(Err(_)) => refused += 1,
+                Err(p) => { o.check(false, "-", &format!("refusal{}", k), || format!("RawBuilder::add_item panicked: {}", p)); break; }
+            }
+        }
+        let s1 = b.finish();
+        let id = format!("refusal{}", k);
+        o.tick("refusal", "refusal");
+        match build_raw(&accepted) {
+            Some(s2) => {
+                let (i1, i2) = (guard(|| raw_ints(&s1)), guard(|| raw_ints(&s2)));
+                let same = matches!((&i1, &i2), (Ok(Some(a)), Ok(Some(b))) if a == b);
+                o.check(refused > 0, "-", &id, || "generator: no item was refused".to_string());
+                o.check(same, "-", &id, || format!("{} refused add_item call(s) changed the snapshot: it serializes to {:?} ints, the snapshot of the {} accepted items to {:?}",
+                    refused, i1.as_ref().map(|x| x.as_ref().map(|v| v.len())), accepted.len(), i2.as_ref().map(|x| x.as_ref().map(|v| v.len()))));
+                if let Ok(Some(ints)) = &i1 {
+                    let mut back = RawSnap::default();
+                    let r1 = guard(|| back.read_from_ints(&mut libtw2_warn::Ignore, ints));
+                    o.check(matches!(r1, Ok(Ok(()))), "-", &id, || format!("the snapshot finished after {} refusal(s) is not read back from its own integers: {:?}", refused, r1));
+                }
+            }
+            None => o.check(false, "-", &id, || "the accepted items are refused when added alone".to_string()),
         }
     }
     // ---- the Gallina model of the reference against the real C++
@@ -1502,6 +1583,19 @@ fn gen_c10(o: &mut Out, r: &mut Rng, th: bool) {
         ops.push((TypeId::Uuid(u), 7, vec![1]));
         ops.push((TypeId::Uuid(u), 8, vec![]));
         ops.push((TypeId::Uuid(uuid_n(9)), 8, vec![]));
+        do_build(o, &ops, true, fresh);
+    }
+    // the byte wire form of a snapshot inside the 64 KiB limit can be longer than 64 KiB (a packed int takes
+    // up to 5 bytes): close to 16000 words of large magnitude, ordinal and UUID types
+    for (k, total) in [15000usize, 16000, 16300].iter().enumerate() {
+        let mut ops: Vec<Op> = vec![];
+        let per = 1000usize;
+        let n_items = total / per;
+        for i in 0..n_items {
+            let ty = if i % 2 == 0 { TypeId::Ordinal(20 + k as u16) } else { TypeId::Uuid(uuid_n(11 + k as u64)) };
+            let data: Vec<i32> = (0..per).map(|j| match (i + j) % 4 { 0 => i32::MIN + j as i32, 1 => i32::MAX - j as i32, 2 => 0x0800_0000 + (r.next() as i32 & 0x00ff_ffff), _ => -0x0800_0000 - (r.next() as i32 & 0x00ff_ffff) }).collect();
+            ops.push((ty, i as u16, data));
+        }
         do_build(o, &ops, true, fresh);
     }
     // up to the limits: item count, byte size, many UUID types
